@@ -3,6 +3,8 @@
   C11 / C13 are about.
 -/
 import TT.Spec.Pinned
+import TT.Props.C13
+import TT.Props.C11
 namespace TT.Props.Pinned
 open TT TT.Tree TT.Spec
 
@@ -33,6 +35,21 @@ theorem punctPositionsP_eq : punctPositionsP = punctPositions := by
 
 theorem deletePunctOKP_eq : deletePunctOKP = deletePunctOK := by
   funext a b; unfold deletePunctOKP deletePunctOK; rw [punctPositionsP_eq]
+
+/-! the theorems of C13 / C11, stated with the pinned inventories (what the checks evaluate on the implementation's output) -/
+
+theorem verylow_post_pinned (t : Tree) (h : WF t = true) : verylowPostP (punctuationVerylow t) = true := by
+  rw [verylowPostP_eq]; exact TT.Props.C13.verylow_post t h
+
+theorem root_post_pinned (t : Tree) (h : WF t = true) : rootPostP (punctuationRoot t) = true := by
+  rw [rootPostP_eq]; exact TT.Props.C13.root_post t h
+
+theorem sym_ok_pinned (relc : Option Str) (t : Tree) (hu : uidsOK t = true) (h : WF t = true) :
+    symetrifyOKP relc t (punctuationSymetrify relc t) = true := by
+  rw [symetrifyOKP_eq]; exact TT.Props.C13.sym_ok relc t hu h
+
+theorem punctuationDelete_spec_pinned (t : Tree) (h : WF t = true) : deletePunctOKP t (punctuationDelete t).1 = true := by
+  rw [deletePunctOKP_eq]; exact TT.Props.C11.punctuationDelete_spec t h
 
 example : isPunctWordP (Tree.leaf 1 { label := "$(".toList, word := some "/".toList }) = true := by decide
 
